@@ -61,3 +61,16 @@ impl GlobalLayout {
         &self.names
     }
 }
+
+// verification hook (compiled only by Kani): `empty()` goes through a OnceLock whose slow
+// path is a futex syscall the model checker cannot execute; harnesses stub it with this twin.
+#[allow(unexpected_cfgs)]
+#[cfg(kani)]
+impl GlobalLayout {
+    pub fn verif_empty() -> Arc<Self> {
+        Arc::new(Self {
+            id: 0,
+            names: Vec::new(),
+        })
+    }
+}
